@@ -19,7 +19,7 @@ import (
 // iteration order (runtime seam, rt build only).
 
 var c19Alphabet = []string{"swap_batch_opposite_p1", "swap_in_2hop_elys_atom_L", "join_p1_all_t1", "exit_p2_half_lp1", "perp_open_long_t3_x5", "perp_bot_close_all", "llp_open_t2_x5", "price_atom_2",
-	"unbond_lp2_half", "mc_claim_lp1", "fee_tx_uatom", "burn_two_denoms", "gap_1h", "claim_vesting_lp1", "ext_incentives_two_new_denoms_lp1"}
+	"unbond_lp2_half", "mc_claim_lp1", "fee_tx_uatom", "burn_two_denoms", "gap_1h", "gap_8d", "claim_vesting_lp1", "ext_incentives_two_new_denoms_lp1"}
 
 type c19Rec struct {
 	Hash string   `json:"hash"`
